@@ -191,6 +191,12 @@ func (e *Engine) stepSafe(st *State) (out interface{}) {
 	if fr.pc >= len(fr.block.Instrs) {
 		panic(engErr("pc past end of block in %v", fr.fn))
 	}
+	if st.boundLabel != "" && st.steps > st.boundDeadline {
+		// a vrt.Bounded region ran past its step bound: bounded-termination obligation violated
+		lbl := st.boundLabel
+		st.boundLabel = ""
+		e.assert(st, e.ts.False, lbl, fr.block.Instrs[fr.pc].Pos())
+	}
 	instr := fr.block.Instrs[fr.pc]
 	e.execInstr(st, th, fr, instr)
 	st.steps++
